@@ -24,7 +24,7 @@ from fpy2.interpret import get_default_interpreter
 from fpy2.interpret.value import to_value, Foreign
 from fpy2.types import RealType, BoolType, ContextType, TupleType, ListType, VarType, FunctionType
 from fpy2.utils import Unionfind, NamedId
-from fpy2.analysis import (DefineUse, TypeInfer, ArraySizeInfer, ValueClassInfer, PartialEval, Alias, ContextUse)
+from fpy2.analysis import (DefineUse, TypeInfer, ArraySizeInfer, ValueClassInfer, PartialEval, Alias, ContextUse, Purity)
 from fpy2.analysis.reaching_defs import AssignDef, PhiDef
 from fpy2.analysis.array_size import ListSize, TupleSize, is_size_eq
 from fpy2.analysis import value_class as VCM
@@ -122,6 +122,7 @@ class Facts:
         self.cu = attempt('ContextUse', lambda: ContextUse.analyze(self.ast, def_use=self.du, partial_eval=self.pe)) if self.pe else None
         self.vc = attempt('ValueClassInfer', lambda: ValueClassInfer.analyze(self.ast, def_use=self.du, type_info=self.ti, ctx_use=self.cu)) if (self.ti and self.cu) else None
         self.al = attempt('Alias', lambda: Alias.analyze(self.ast, self.du, self.ti)) if self.ti else None
+        self.pure = attempt('Purity', lambda: Purity.analyze(self.ast, self.du)) if self.du else None
         self._closure = {}
 
     def closure(self, d):
@@ -226,6 +227,8 @@ class Tracer:
         self.seen_viol = set()
         self.pyfn = None
         self.wheres = {}
+        self.swheres = {}
+        self.cnt = {}
         self._index(self.F.ast)
 
     # ----- indexing the AST
@@ -273,7 +276,11 @@ class Tracer:
         self.last_expr = None
         self.budget = 20000
 
-    def count(self, k, n=1): self.rep.count(k, n)
+    def count(self, k, n=1):
+        c = self.cnt; c[k] = c.get(k, 0) + n      # flushed into the report by `flush_counts`
+    def flush_counts(self):
+        for k, n in self.cnt.items(): self.rep.count(k, n)
+        self.cnt = {}
 
     def violate(self, analysis, what, fact, observed, where, finding=None, force=False):
         key = (analysis, what, where)
@@ -411,7 +418,8 @@ class Tracer:
         self.sizes = {}
         reach = F.du.reach.get(s)
         if reach is None: return
-        where0 = 'before `' + fmt(s).split('\n')[0][:50] + '`'
+        where0 = self.swheres.get(k)
+        if where0 is None: where0 = self.swheres[k] = 'before `' + fmt(s).split('\n')[0][:50] + '`'
         live = []
         for name, d in reach.items():
             n = str(name)
@@ -500,6 +508,9 @@ def classify(analysis, what, fact, observed, tr):
         pe = tr.F.pe
         if pe is not None and any(isinstance(v, list) or (isinstance(v, tuple) and any(isinstance(x, list) for x in v)) for v in pe.by_def.values()):
             return 'C13-F2'   # a list-valued definition kept as a constant across a mutation
+    if analysis == 'Purity':
+        if writes_param_directly(tr.F): return None   # a store through the parameter's own name must be seen
+        return 'C13-F7'   # a write to the caller's list through another name (alias, row, loop target) is not seen
     if analysis == 'ValueClassInfer' and any(isinstance(e, A.Sum) for e in tr.exprs):
         return 'C13-F4'   # sum() of a one-element list passes the element through unrounded
     if analysis == 'ArraySizeInfer' and replaces_rows(tr.F):
@@ -507,6 +518,27 @@ def classify(analysis, what, fact, observed, tr):
     if analysis == 'ArraySizeInfer' and has_early_return(tr.F.ast):
         return 'C13-F3'   # an unconditional zip/assert after an early return constrains the inputs globally
     return None
+
+def writes_param_directly(F) -> bool:
+    """is there an `xs[i] = e` whose target, followed back through earlier stores and phis, is a parameter or a
+    free variable itself (the case Purity handles by its definition walk)?"""
+    du = F.du; found = []
+    class V(fp.ast.DefaultVisitor):
+        def _visit_indexed_assign(self, stmt, ctx):
+            seen, work = set(), [du.use_to_def.get(stmt)]
+            while work:
+                d = work.pop()
+                if d is None or id(d) in seen: continue
+                seen.add(id(d))
+                if isinstance(d, AssignDef):
+                    if isinstance(d.site, (A.Argument, A.FuncDef)): found.append(stmt)
+                    elif isinstance(d.site, A.IndexedAssign) and d.prev is not None: work.append(du.defs[d.prev])
+                else:
+                    work += [du.defs[d.lhs], du.defs[d.rhs]]
+            super()._visit_indexed_assign(stmt, ctx)
+    try: V()._visit_function(F.ast, None)
+    except Exception: pass
+    return bool(found)
 
 def replaces_rows(F) -> bool:
     """does the function store a list(-carrying value) into a list, or hand a list of lists to a call?"""
@@ -545,6 +577,12 @@ def has_early_return(func) -> bool:
     except Exception: pass
     return bool(found)
 
+def snapshot(v):
+    """the structure of a value (lists and tuples rebuilt, numbers shared: they are immutable)"""
+    if isinstance(v, list): return [snapshot(x) for x in v]
+    if isinstance(v, tuple): return tuple(snapshot(x) for x in v)
+    return v
+
 def run_traced(fn, facts, tracer, args, ctx=None, timeout_s=2):
     """execute the function through the tracing compiler; returns ('ok', value) / ('err', name)"""
     tracer.reset(args)
@@ -554,6 +592,7 @@ def run_traced(fn, facts, tracer, args, ctx=None, timeout_s=2):
     pyfn = tracer.pyfn
     rctx = rt._func_ctx(fn.ast, ctx)
     vals = tuple(to_value(a) for a in args)
+    tracer.arg_vals = vals; tracer.arg_snap = snapshot(vals)
     def on_alarm(signum, frame): raise RunTimeout()
     old = signal.signal(signal.SIGALRM, on_alarm); signal.alarm(timeout_s)
     try:
@@ -872,8 +911,14 @@ def trace_function(rep, R, fn, source, label, n_inputs, alias_check=True, inputs
         except Exception as e:
             rep.count('trace-compile-error:' + type(e).__name__)
             if os.environ.get('VERIF_DEBUG'): rep.notes.append(traceback.format_exc()[-600:])
-            return
+            tr.flush_counts(); return
         rep.count('run:' + (st if st != 'err' else 'err:' + val))
+        if facts.pure is True and st != 'timeout':
+            # --- purity: a function reported pure leaves the lists it was handed as they were (also when it raises)
+            rep.count('facts:purity')
+            for i, (now, was) in enumerate(zip(tr.arg_vals, tr.arg_snap)):
+                if isinstance(now, (list, tuple)) and not same_const(was, now):
+                    tr.violate('Purity', 'a function reported pure changed a list it was handed', f'Purity.analyze = True; argument {i} before: {show(was)}', f'after: {show(now)}', f'argument {i}')
         if st == 'ok':
             for p in tr.pending: tr.violate(*p[:5], finding=p[5], force=True)
         elif tr.pending: rep.count('size-facts-false-on-a-raising-run', len(tr.pending))
@@ -888,6 +933,7 @@ def trace_function(rep, R, fn, source, label, n_inputs, alias_check=True, inputs
                 tr.check_size(facts.asz.ret_size, val, 'ArraySizeInfer', 'return')
                 for p in tr.pending: tr.violate(*p[:5], finding=p[5], force=True)
                 tr.pending = []
+    tr.flush_counts()
     if len(rep.cov['samples']) < 4:
         rep.sample({'program': source[:1500], 'label': label, 'analyses': facts.ok})
 
@@ -965,6 +1011,79 @@ def op_sweep(rep, R, tmp, tier):
         if quick and len(inputs) > 8: inputs = R.sample(inputs, 8)
         trace_function(rep, R, getattr(mod, f), src[:200] + '…' + f, 'ladder:' + f, 0, inputs=inputs, call_ctxs=[None])
 
+
+# ------------------------------------------------------------------------------------------------
+# layer 3: refinement sweep — every shape of branch condition, both arms, operands of every class
+
+SWEEP_VALUES = [float('nan'), float('inf'), float('-inf'), 0.0, -0.0, 1.5, -2.0, 3.0, Fraction(1, 10), 0.1]
+SWEEP_RHS = ['0', '0.0', '1.5', '0.1', '(-2)', 'y']
+
+def refine_atoms():
+    atoms = [f'fp.{p}({v})' for p in ('isnan', 'isinf', 'isfinite', 'isnormal') for v in ('x', 'y')]
+    for s in CMP_SRC.values():
+        for rhs in SWEEP_RHS:
+            atoms.append(f'x {s} {rhs}'); atoms.append(f'{rhs} {s} x')
+    atoms += ['0 < x < y', 'x <= y <= 3', 'x == y == 0', 'x != y != 0', '0 != x != 1.5', 'y > x >= 0', '1.5 == x', 'x == y != 0.1']
+    return atoms
+
+ARM = ('        a = x\n        b = y\n        with fp.REAL:\n            r = a * b\n            s = a - y\n')
+
+def refine_program(name, cond, form):
+    if form == 'if':
+        return (f'@fp.fpy\ndef {name}(x: fp.Real, y: fp.Real):\n    if {cond}:\n{ARM}    else:\n{ARM}    return (a, b, r, s)\n')
+    if form == 'if1':
+        return (f'@fp.fpy\ndef {name}(x: fp.Real, y: fp.Real):\n    a = y\n    b = x\n    r = 0.0\n    s = 0.0\n    if {cond}:\n{ARM}    u = a\n    return (a, b, r, s, u, x)\n')
+    if form == 'ifexpr':
+        return (f'@fp.fpy\ndef {name}(x: fp.Real, y: fp.Real):\n    with fp.REAL:\n        a = (x * y if {cond} else x + y)\n        b = (x if {cond} else -x)\n    return (a, b)\n')
+    if form == 'while':
+        return (f'@fp.fpy\ndef {name}(x: fp.Real, y: fp.Real):\n    k = 0\n    r = 0.0\n    while ({cond}) and k < 2:\n        with fp.REAL:\n            r = x * y\n            x = x - x\n            k = k + 1\n    t = x\n    return (r, t, k)\n')
+    if form == 'elif':
+        c1, c2 = cond
+        return (f'@fp.fpy\ndef {name}(x: fp.Real, y: fp.Real):\n    if {c1}:\n{ARM}    elif {c2}:\n{ARM}    else:\n{ARM}    return (a, b, r, s)\n')
+    raise ValueError(form)
+
+def refine_sweep(rep, R, tmp, tier):
+    """value-class refinement end to end on the REAL analysis and interpreter: every comparison operator x
+    {zero literal, non-zero literal, non-dyadic literal, variable} x either side, the class tests, chains, and
+    not/and/or combinations, as `if`/`else`, `if`, `elif` ladder, if-expression and `while` condition; both arms
+    read the tested variables and compute with them under REAL; run on ALL pairs of operand classes"""
+    quick = tier == 'quick'
+    atoms = refine_atoms()
+    progs = []
+    def add(cond, form): progs.append((f'q{len(progs)}', cond, form))
+    for a in atoms:
+        add(a, 'if'); add(f'not ({a})', 'if')
+    ncomb = 50 if quick else 600
+    for _ in range(ncomb):
+        a, b, c = R.choice(atoms), R.choice(atoms), R.choice(atoms)
+        add(R.choice([f'({a}) and ({b})', f'({a}) or ({b})', f'not (({a}) and ({b}))', f'not (({a}) or ({b}))', f'({a}) and not ({b})',
+                      f'(({a}) or ({b})) and ({c})', f'({a}) or (({b}) and ({c}))', f'not ({a}) or ({b})']), 'if')
+    for _ in range(25 if quick else 300):
+        form = R.choice(['if1', 'ifexpr', 'while', 'elif'])
+        a, b = R.choice(atoms), R.choice(atoms)
+        c = R.choice([a, f'not ({a})', f'({a}) and ({b})', f'({a}) or ({b})'])
+        add((a, b) if form == 'elif' else c, form)
+    src = 'import fpy2 as fp\n\n' + '\n'.join(refine_program(n, c, f) for n, c, f in progs)
+    path = os.path.join(tmp, 'refsweep.py')
+    with open(path, 'w') as fh: fh.write(src)
+    try:
+        mod = load_module(path, 'fpyverif_c13_refsweep')
+    except Exception as e:
+        rep.broke('harness', 'C13.refine-sweep', f'{type(e).__name__}: {str(e)[:300]}'); return
+    pairs = [(a, b) for a in SWEEP_VALUES for b in SWEEP_VALUES]
+    # quick tier: the plain atoms see every pair of classes; negations / combinations / other statement forms see
+    # every class of x against a rotating class of y (and the diagonal), which still reaches both arms of each
+    nv = len(SWEEP_VALUES)
+    def thin(i): return [(SWEEP_VALUES[j], SWEEP_VALUES[(j + i + k) % nv]) for j in range(nv) for k in (0, 3)] + [(v, v) for v in SWEEP_VALUES[:6]]
+    xonly = [(v, w) for v in SWEEP_VALUES for w in (1.5, float('nan'))]
+    for i, (n, c, f) in enumerate(progs):
+        simple = f == 'if' and isinstance(c, str) and (c in atoms or (c.startswith('not (') and c[5:-1] in atoms))
+        if not quick: inputs = pairs
+        elif simple: inputs = pairs if 'y' in c else xonly
+        else: inputs = thin(i)
+        trace_function(rep, R, getattr(mod, n), refine_program(n, c, f), f'refine:{n}:{f}', 0, inputs=inputs, call_ctxs=[None])
+    rep.count('refine-sweep-programs', len(progs))
+
 def run(rep, tier, seed):
     R = Prng(seed, 'C13')
     quick = tier == 'quick'
@@ -976,6 +1095,7 @@ def run(rep, tier, seed):
         layer2_uf(rep, R, tier)
         # ---- layer 3: every operation under narrow contexts; exact tables behind refinement ladders
         op_sweep(rep, R, tmp, tier)
+        refine_sweep(rep, R, tmp, tier)
         # ---- layer 3: corpus
         corp = load_module(os.path.join(os.path.dirname(os.path.abspath(__file__)), 'corpus', 'c13_templates.py'), 'fpyverif_c13_corpus')
         csrc = open(corp.__file__).read()
@@ -1017,14 +1137,14 @@ def run(rep, tier, seed):
                        'representable_classes + _rounded on random small contexts of every family (with nan_value/inf_value substitutes), the Sum rule under every sweep context, every refinement rule '
                        '(4 class tests x truth, 6 comparison operators x literal kind x side x negation) read off the real analysis on one-branch programs, '
                        'random union-find op sequences (<= 200 ops, <= 30 elements: add/find/get/union/component/items/representatives/len/contains) vs the Lean model; '
-                       'layer 3: hand-written templates for each sharing route + value-class ladders + static sizes + foldable constants, a generator of list-sharing programs '
+                       'layer 3: a refinement sweep (every comparison operator x {zero, non-zero, non-dyadic literal, variable} x side, class tests, chains, not/and/or combinations, as if/else, if, elif, if-expression, while; all pairs of operands from NaN, +-inf, +-0, finite, Fraction) read in both arms; hand-written templates for each sharing route + value-class ladders + static sizes + foldable constants, a generator of list-sharing programs '
                        '(flat/nested/tupled lists; binding, indexing, slicing, construction, tuple packing, iteration, comprehension, zip/enumerate, if-expression, phi, loops), '
                        'and proggen.Gen type-directed programs (helpers included); inputs from a pool incl. NaN, +-inf, +-0, huge/tiny, ragged and rectangular nested lists; '
                        'call context in {absent, FP32, REAL, narrow}; evaluations = recorded expression values + rounding probes + union-find components; '
                        'distinct = distinct (program, input, ctx) runs + distinct model lines')
     rep.cov['explanation'] = ('Layers 1-2 are machine-checked Lean theorems about faithful models of value_class.py transfer/refinement functions and utils/unionfind.py, tied to the code by '
                               'exhaustive table comparison / random op sequences. Layer 3 is RUNTIME MONITORING of the real analyses (TypeInfer, ArraySizeInfer, ValueClassInfer, PartialEval, '
-                              'DefineUse/ReachingDefs, ContextUse, Alias) against traced executions through a subclass of the real BytecodeCompiler: it can find false facts, it proves nothing.')
+                              'DefineUse/ReachingDefs, ContextUse, Alias, Purity) against traced executions through a subclass of the real BytecodeCompiler: it can find false facts, it proves nothing.')
     rep.assumptions += ['layer 3 (type shapes, static sizes, constants, reaching definitions, aliasing, program-level value classes) is runtime monitoring, not proof',
                         'equal-length facts (shared size variable) are judged at one instant: live variables at a statement entry and the expressions evaluated by that statement outside comprehension elements',
                         'aliasing is judged for sharing created inside the function by the listed routes; arguments are passed as fresh, pairwise disjoint lists; sharing through calls is counted, not judged',
